@@ -613,15 +613,17 @@ fn step_mov_l<M: Mem>(e: &mut Exp, w: &[u16; 4], m: &mut M) {
             _ => {}
         },
         0x78 => {
-            // 0100 78 (0e)0 6B 2(0r)|A(0r) 00dd dddd
-            if y & 0x8f == 0 && hi(w[1]) == 0x6b && hi(w[2]) == 0 {
+            // load : 0100 78 (0s)0 6B 2(0d) 00dd dddd      store: 0100 78 (1d)0 6B A(0s) 00dd dddd
+            // (the long store sets bit 7 of the address-register byte like every other MOV.L store form;
+            //  checked against the GNU assembler's encodings, e.g. 01 00 78 90 6b a1 = mov.l er1,@(d:24,er1))
+            if y & 0x0f == 0 && hi(w[1]) == 0x6b && hi(w[2]) == 0 {
                 let sel = n_hi(lo(w[1]));
                 let rr = n_lo(lo(w[1]));
                 if rr & 8 == 0 {
-                    if sel == 0x2 {
+                    if sel == 0x2 && a & 8 == 0 {
                         do_mov_mem(e, m, SZ_L, 2, false, a, imm32(w[2], w[3]), rr, 5)
-                    } else if sel == 0xa {
-                        do_mov_mem(e, m, SZ_L, 2, true, a, imm32(w[2], w[3]), rr, 5)
+                    } else if sel == 0xa && a & 8 != 0 {
+                        do_mov_mem(e, m, SZ_L, 2, true, a & 7, imm32(w[2], w[3]), rr, 5)
                     }
                 }
             }
